@@ -30,12 +30,44 @@ TL = "urwid.text_layout"
 STL = f"{TL}.StandardTextLayout"
 
 
+def _roles(fi):
+    """(space names, newline names, newline-position names) of a layout function, found from their definitions:
+    a name bound to ' ' / ord(' ') is a space, to a newline likewise, a name bound to <text>.find(...) is the newline position."""
+    from ..rules.defuse import DefUse
+
+    du = DefUse(fi)
+    space, newline, nlpos = set(), set(), set()
+    changed = True
+    while changed:
+        changed = False
+        for name, ds in du.defs.items():
+            for dn, v, how in ds:
+                kind = None
+                if isinstance(v, ast.Constant) and v.value in (" ", b" "):
+                    kind = space
+                elif isinstance(v, ast.Constant) and v.value in ("\n", b"\n"):
+                    kind = newline
+                elif isinstance(v, ast.Call) and isinstance(v.func, ast.Name) and v.func.id == "ord" and v.args and isinstance(v.args[0], ast.Name):
+                    kind = space if v.args[0].id in space else newline if v.args[0].id in newline else None
+                elif isinstance(v, ast.Call) and isinstance(v.func, ast.Attribute) and v.func.attr == "find":
+                    kind = nlpos
+                elif isinstance(v, ast.Call) and isinstance(v.func, ast.Name) and v.func.id == "len" and name in nlpos:
+                    kind = nlpos
+                if kind is not None and name not in kind:
+                    kind.add(name)
+                    changed = True
+    return space, newline, nlpos
+
+
 def rule_consume(ctx: Ctx) -> RuleResult:
     p = ctx.p
     rr = RuleResult("GUARD", "C03.4", "zero-width consumed-character markers (0, offs) are emitted only for the line's newline position or under a space / newline test of text[offs]", floor=5)
     fi = p.func(f"{STL}.calculate_text_segments")
     cfg = cfg_of(fi)
     text = fi.params[1]
+    space, newline, nlpos = _roles(fi)
+    if not space or not nlpos:
+        raise AnalysisError("calculate_text_segments: the space constant / newline position variables were not found")
     markers = []
     for n in cfg.nodes:
         if n.ast is None or n.kind in ("for", "with", "handler"):
@@ -46,10 +78,10 @@ def rule_consume(ctx: Ctx) -> RuleResult:
     for n, tup in markers:
         off = ast.unparse(tup.elts[1])
         ident = f"(0, {off})@{norm(n.stmt, 40)}"
-        if off == "nl_pos":
+        if off in nlpos:
             rr.inst(ident, True, {"marker": f"(0, {off})", "justified_by": "newline position of the current line"} if len(rr.samples) < 6 else None)
             continue
-        tests = [t for t in cfg.nodes if t.kind == "test" and f"{text}[{off}]" in ast.unparse(t.ast) and ("sp_o" in ast.unparse(t.ast))]
+        tests = [t for t in cfg.nodes if t.kind == "test" and f"{text}[{off}]" in ast.unparse(t.ast) and any(isinstance(x, ast.Name) and x.id in space for x in ast.walk(t.ast))]
         ok = False
         for t in tests:
             if n not in ExcEngine._reach_without_edge(cfg, t, "T"):
@@ -111,7 +143,8 @@ def rule_reopen(ctx: Ctx) -> RuleResult:
     fi = p.func(f"{STL}.calculate_text_segments")
     cfg = cfg_of(fi)
     text = fi.params[1]
-    undo = [n for n in cfg.nodes if isinstance(n.ast, ast.Delete) and any("segments" in ast.unparse(t) for t in n.ast.targets)] + nodes_where(cfg, lambda x: isinstance(x, ast.Call) and isinstance(x.func, ast.Attribute) and x.func.attr == "pop" and ast.unparse(x.func.value) == "segments")
+    space, newline, _nlpos = _roles(fi)
+    undo = [n for n in cfg.nodes if isinstance(n.ast, ast.Delete) and any(isinstance(t, ast.Subscript) and isinstance(t.value, ast.Name) for t in n.ast.targets)] + nodes_where(cfg, lambda x: isinstance(x, ast.Call) and isinstance(x.func, ast.Attribute) and x.func.attr == "pop" and isinstance(x.func.value, ast.Name) and not x.args)
     if not undo:
         raise AnalysisError("calculate_text_segments: no statement taking back an emitted line found (del segments[-1])")
     for u in undo:
@@ -123,9 +156,9 @@ def rule_reopen(ctx: Ctx) -> RuleResult:
             conj = t.ast.values if isinstance(t.ast, ast.BoolOp) and isinstance(t.ast.op, ast.And) else [t.ast]
             for c in conj:
                 if isinstance(c, ast.Compare) and len(c.ops) == 1 and ast.unparse(c.left).startswith(f"{text}["):
-                    if isinstance(c.ops[0], ast.Eq) and ast.unparse(c.comparators[0]) == "sp_o":
+                    if isinstance(c.ops[0], ast.Eq) and isinstance(c.comparators[0], ast.Name) and c.comparators[0].id in space:
                         ok = True
-                    elif "nl_o" in ast.unparse(c):
+                    elif any(isinstance(x, ast.Name) and x.id in newline for x in ast.walk(c)):
                         why = f" (the guard `{norm(c, 50)}` also admits a newline)"
         rr.inst(f"undo:{norm(u.stmt, 40)}", True, {"statement": norm(u.stmt, 50), "guarded_by_space_test": ok})
         if not ok:
